@@ -186,7 +186,7 @@ def obligations(tier):
     for first in range(2 * NK):
         obs.append(Obligation(
             name="nstart-first%02d-depth%d" % (first, depth), make=mk_seq(first, depth),
-            timeout=150 if tier == "quick" else 1500, functions=FUNCS,
+            timeout=280 if tier == "quick" else 2500, functions=FUNCS,
             symbolic={"pre-state per remote": "open? x retransmitted? x backlog 0..2", "events after the first": "index 0..13 each",
                       "peer earlier used the same message IDs in its own requests": "bool"},
             concrete={"first event": first, "depth": depth, "MAX_RETRANSMIT": 1, "remotes": 2},
